@@ -55,9 +55,15 @@ CHECKS = {
     "C05": dict(
         text="Invariant proved over all command histories and both code variants on model/Seq.v (props/C05.v: unique owner of every "
              "(host, prefix) pair and unique names also for the saved state; conflict rejected and state unchanged; redeploy moves; remove "
-             "releases; one winner in either order); correspondence: conflict-rich random histories on the real router compared step by step.",
-        note="No axioms. The concurrent form of the race (install atomic under the router write lock) is covered by the C18 lock facts and the M5 trace acceptor.",
-        technique="Coq proof (invariant by induction over command lists) + kernel-evaluated correspondence", ref="§7 C05"),
+             "releases; one winner in either order). Concurrent form (props/C05conc.v over model/M5own.v: every sequence of the router's "
+             "table-changing write-lock regions, install = availability check + Set, remove): each pair owned once after every region; a "
+             "conflicting install fails and changes nothing, a conflict-free one succeeds; two successful installs of different services "
+             "claiming one pair are separated by a release; of any number of racers for the same free pairs exactly one - the first to take "
+             "the lock - succeeds; accepted => monitor. Correspondence: conflict-rich random histories on the real router compared step by "
+             "step; interleaved deploys on the virtual clock and racing deploys under the real scheduler whose recorded lock-region "
+             "sequences (install/removed hook events with the options given to the availability check) must be accepted by M5own and satisfy c05c_ok.",
+        note="No axioms. That installService's check-and-set and RemoveService's removal each run under the router's write lock (so that an execution IS a sequence of such regions) is the C18 lock-fact obligation plus the race stress.",
+        technique="Coq proof (invariant by induction over command lists; invariant and release argument over sequences of lock regions) + kernel-evaluated correspondence and acceptance", ref="§7 C05"),
     "C06": dict(
         text="Theorem over all reachable states and all failing commands on model/Seq.v (props/C06.v); correspondence: histories rich in "
              "failing commands of every error class on the real router; monitor compares list, state file, probed targets and the "
